@@ -12,7 +12,7 @@ import struct
 from lib import rig, vt
 
 ATT_CID = 4
-FAMILIES = ("plural", "notify_one", "indicate_one", "indicate_one_force", "notify_one_force", "one_eatt_notify", "one_eatt_indicate", "concurrent")
+FAMILIES = ("plural", "notify_one", "indicate_one", "indicate_one_force", "notify_one_force", "one_eatt_notify", "one_eatt_indicate", "concurrent", "lossy")
 
 _DEF = {"e": "", "b": 0, "m": 0, "c": 0, "v": 0, "id": 0, "kind": "", "force": 0, "vlen": 0, "targets": [], "len": 0, "ok": 0, "p": 0, "api": ""}
 
@@ -26,7 +26,7 @@ def ev(e, **kw):
 
 def trace_cfg(nbearers=4):
     return ("SPECIFICATION TraceSpec\nCONSTANTS\n  Bearers = {" + ", ".join(str(i + 1) for i in range(nbearers)) + "}\n  Chars = {1, 2}\n"
-            "  MaxCalls = 100000\n  Lens = {0}\n  Mtu0 = 23\n  MaxWrites = 100000\n  InitVals = {0}\n  Lossy = FALSE\n"
+            "  MaxCalls = 100000\n  Lens = {0}\n  Mtu0 = 23\n  MaxWrites = 100000\n  InitVals = {0}\n  Lossy = TRUE\n"
             "INVARIANT OneOutstanding\nINVARIANT OnlyOwed\nINVARIANT AllReached\nCHECK_DEADLOCK FALSE\n")
 
 
@@ -188,6 +188,33 @@ async def run_scenario(rng, family, seed=0, eatt=(True, True), mtus=(64, 23), ma
         return [b for b in all_b if bearers[b]["conn"] == i]
 
     eatt_b = [b for b in all_b if bearers[b]["enh"]]
+    if family == "lossy":
+        # one Handle Value Confirmation per fixed bearer is lost on its way out of the client (swallowed at the client's
+        # HCI boundary): the server's indication times out; later indications to that bearer must go out again
+        budget = {1: 1, 3: rng.choice([0, 1])}
+        for i in (0, 1):
+            b = 2 * i + 1
+            tap = net.stacks[i + 1].tap
+
+            def swallow(packet, b=b):
+                if len(packet) >= 10 and packet[0] == 0x02 and packet[7:9] == b"\x04\x00" and packet[9] == 0x1E and budget[b] > 0:
+                    budget[b] -= 1
+                    trace.append(ev("lost", b=b))
+                    return True
+                return False
+
+            tap.filter_h2c = swallow
+        for n in range(ncalls):
+            ci = rng.choice((1, 2))
+            if n % 2 == 0:
+                await call("indicate_subscribers", "ind", ci, all_b, False)
+            else:
+                i = rng.choice((0, 1))
+                await call("indicate_subscriber", "ind", ci, [2 * i + 1], True, sconns[i])
+            await asyncio.sleep(rng.choice([0, 1.0, 40.0]))
+        await asyncio.sleep(100)
+        trace.append(ev("quiesce", p=len(pending)))
+        return trace, info
     for _ in range(ncalls):
         ci = rng.choice((1, 2))
         i = rng.choice((0, 1))
